@@ -211,7 +211,8 @@ EXTRA = {
     "C02": " The walk over the positions is never pruned." + STATE,
     "C03": (" A registry store enters the object under construction / just removed, never an enumerated existing node; a caught exception is not kept in a local "
             "that outlives its handler (frame/traceback cycle keeping nodes alive); get() compares class objects, not class names; accessors are re-installed on every subclass." + STATE),
-    "C04": (" Deserialization hooks do not edit the payload they are given; serialization hooks keep no copy of their result beyond the call; the source tables are "
+    "C04": (" Every compared field annotated with an abstract sequence type is brought to one concrete container at construction (a tuple and the list read back compare equal; F25, fixed); "
+            "clear_registry has no call site in the library; deserialization hooks do not edit the payload they are given; serialization hooks keep no copy of their result beyond the call; the source tables are "
             "reached through the owning class whenever clear_registry rebinds them through cls."),
     "C05": (" No child value is classified by an abstract-collection test (helpers of later origin included); no one-shot iterator is consumed twice on a path; "
             "no mutable default argument is filled." + STATE),
@@ -224,11 +225,13 @@ EXTRA = {
     "C11": (" The visited set of a recursive predicate is keyed by the annotation itself; is_collection excludes no mutable type; the per-class tables are not filled "
             "while a classifier stream is still running; the stored annotation is never widened."),
     "C12": (" The generated parameter list has the public positional order and defaults; get_field_types fills its result in dataclasses.fields order." + STATE),
-    "C13": " Membership tests of the value compare with == (no hash container); the stored annotation is never widened." + STATE,
+    "C13": (" Membership tests of the value compare with == (no hash container); the stored annotation is never widened; elements of a collection value are checked with is_instance, never bare isinstance; "
+            "InvalidTypes is constructed by the gate only; no memoised function receives live values; no one-shot iterator is kept in a table.") + STATE,
     "C14": (" __post_init__ stores derived (init=False) fields only; a replace() without any registry store cannot restore the entry; accessors are re-installed on "
             "every subclass." + STATE),
     "C15": " The common-source test ranges over all members (no filtered list); no container of an operand is extended in place." + STATE,
-    "C16": " Every to_dict / from_dict of the mixin hooks passes the call's dialect unless the slot is known to be None on that path.",
+    "C16": (" Every to_dict / from_dict of the mixin hooks passes the call's dialect unless the slot is known to be None on that path; format front-ends convert through as_dict / as_obj; "
+            "the option mapping obtained through the getter is never written; a _serialize override goes through super()._serialize() or returns the empty placeholder."),
     "C17": (" The matcher cache discipline (full text as key, filled on success only) is checked here too; every occurrence of a sub-pattern is visited "
             "(no table of compiled parse trees)."),
     "C18": (" The parent's field is rewritten whenever the node has a parent; the held child sequence is never edited in place; the release of the old node in replace() "
